@@ -130,3 +130,134 @@ Proof.
       right. repeat split; try reflexivity. exists v. split; [reflexivity|]. split; [assumption|].
       right. right. repeat split; try reflexivity; try assumption. cbn. left. reflexivity.
 Qed.
+
+(* ------------------------------------------------------------------ the hand model's generate_receive IS the source.
+   The model (VmReceive.v) runs the method and the descendants on its own account state; the translation takes the
+   outcomes as inputs. Instantiating those inputs with what the model computes — the lookup verdict, the method's error,
+   the descendants, and per descendant the verdict of apply_send on the state the previous ones left ([verdict_items]) —
+   the translated function commits (Done, exactly the method's descendants, no error) exactly where the model answers
+   RApplied, and enters rollbackEmbedded with the model's error code exactly where the model rolls back. *)
+Lemma gen_nil gm r1 r2 amt dsx r3 r4 f1 f2 :
+  gm <> Err_constants_ErrContractMethodNotFound ->
+  generateEmbeddedReceive 0 gm r1 r2 amt dsx 0 r3 r4 [] f1 f2 =
+  (f1, f2, Some 1, Some 1, None, Some amt, Some 1, Some dsx, Some 0).
+Proof.
+  intros Hn. unfold generateEmbeddedReceive. cbv zeta.
+  destruct (Z.eqb_spec gm Err_constants_ErrContractMethodNotFound); [contradiction|]. reflexivity.
+Qed.
+
+Lemma gen_cons_ok gm r1 r2 amt dsx r3 r4 q1 q2 tl f1 f2 :
+  gm <> Err_constants_ErrContractMethodNotFound ->
+  generateEmbeddedReceive 0 gm r1 r2 amt dsx 0 r3 r4 ((0, q1, q2) :: tl) f1 f2 =
+  generateEmbeddedReceive 0 gm r1 r2 amt dsx 0 r3 r4 tl f1 f2.
+Proof.
+  intros Hn. unfold generateEmbeddedReceive. cbv zeta.
+  destruct (Z.eqb_spec gm Err_constants_ErrContractMethodNotFound); [contradiction|]. reflexivity.
+Qed.
+
+Lemma gen_cons_err gm r1 r2 amt dsx r3 r4 c q1 q2 tl f1 f2 :
+  gm <> Err_constants_ErrContractMethodNotFound -> c <> 0 ->
+  generateEmbeddedReceive 0 gm r1 r2 amt dsx 0 r3 r4 ((c, q1, q2) :: tl) f1 f2 =
+  (q1, q2, Some 1, Some 1, Some c, Some amt, None, None, None).
+Proof.
+  intros Hn Hc. unfold generateEmbeddedReceive. cbv zeta.
+  destruct (Z.eqb_spec gm Err_constants_ErrContractMethodNotFound); [contradiction|].
+  change (0 =? 0) with true. cbn [negb].
+  destruct (Z.eqb_spec c 0); [contradiction|]. reflexivity.
+Qed.
+
+Section ReceiveIsSource.
+  Variable cstate : Type.
+  Variable dest_check : dsend -> option Z.
+  Variable num : bytes -> Z.
+  Variables rb1 rb2 : Z.     (* what rollbackEmbedded answers (the same at every call site) *)
+
+  Fixpoint verdict_items (a : cacct cstate) (ds : list dsend) : list (Z * Z * Z) :=
+    match ds with
+    | [] => []
+    | d :: r =>
+      match apply_send cstate dest_check a d with
+      | ASOk a' => (0, rb1, rb2) :: verdict_items a' r
+      | ASErr c => [(c, rb1, rb2)]
+      | ASPanic => []
+      end
+    end.
+
+  Lemma loop_is_source gm r1 r2 amt dsx r3 r4 f1 f2 :
+    gm <> Err_constants_ErrContractMethodNotFound ->
+    forall ds a2,
+    match apply_all cstate dest_check a2 ds with
+    | ASOk _ =>
+        generateEmbeddedReceive 0 gm r1 r2 amt dsx 0 r3 r4 (verdict_items a2 ds) f1 f2 =
+        (f1, f2, Some 1, Some 1, None, Some amt, Some 1, Some dsx, Some 0)
+    | ASErr c =>
+        c <> 0 ->
+        generateEmbeddedReceive 0 gm r1 r2 amt dsx 0 r3 r4 (verdict_items a2 ds) f1 f2 =
+        (rb1, rb2, Some 1, Some 1, Some c, Some amt, None, None, None)
+    | ASPanic => True
+    end.
+  Proof.
+    intros Hn. induction ds as [|d r IH]; intros a2; cbn [apply_all verdict_items].
+    - apply gen_nil. exact Hn.
+    - destruct (apply_send cstate dest_check a2 d) as [a'|c|].
+      + rewrite gen_cons_ok by exact Hn. apply IH.
+      + intros Hc. apply gen_cons_err; assumption.
+      + exact I.
+  Qed.
+
+  Theorem generate_receive_is_source (lookup : send -> lres cstate) (a : cacct cstate) (s : send) gm f1 f2 :
+    let a0 := pop_front cstate a in
+    let a1 := add_balance cstate a0 (s_zts s) (s_amount s) in
+    let enc := map (enc_d num) in
+    match lookup s with
+    | LNotFound =>
+        generate_receive cstate dest_check lookup a s = rollback cstate dest_check (Some a0) s (E_method_not_found) /\
+        forall dsx me items,
+        generateEmbeddedReceive 0 Err_constants_ErrContractMethodNotFound rb1 rb2 (s_amount s) dsx me rb1 rb2 items f1 f2 =
+        (rb1, rb2, Some 1, Some 1, Some Err_constants_ErrContractMethodNotFound, None, None, None, None)
+    | LFound m =>
+        gm <> Err_constants_ErrContractMethodNotFound ->
+        match m a1 s with
+        | MErr c =>
+            generate_receive cstate dest_check lookup a s = rollback cstate dest_check (Some a0) s c /\
+            (c <> 0 -> forall dsx items,
+             generateEmbeddedReceive 0 gm rb1 rb2 (s_amount s) dsx c rb1 rb2 items f1 f2 =
+             (rb1, rb2, Some 1, Some 1, Some c, Some (s_amount s), None, None, None))
+        | MOk a2 ds =>
+            match apply_all cstate dest_check a2 ds with
+            | ASOk a3 =>
+                generate_receive cstate dest_check lookup a s = RApplied a3 ds /\
+                generateEmbeddedReceive 0 gm rb1 rb2 (s_amount s) (enc ds) 0 rb1 rb2 (verdict_items a2 ds) f1 f2 =
+                (f1, f2, Some 1, Some 1, None, Some (s_amount s), Some 1, Some (enc ds), Some 0)
+            | ASErr c =>
+                generate_receive cstate dest_check lookup a s = rollback cstate dest_check (Some a0) s c /\
+                (c <> 0 ->
+                 generateEmbeddedReceive 0 gm rb1 rb2 (s_amount s) (enc ds) 0 rb1 rb2 (verdict_items a2 ds) f1 f2 =
+                 (rb1, rb2, Some 1, Some 1, Some c, Some (s_amount s), None, None, None))
+            | ASPanic => generate_receive cstate dest_check lookup a s = RPanic
+            end
+        | MPanic => generate_receive cstate dest_check lookup a s = RPanic
+        end
+    | LOther => generate_receive cstate dest_check lookup a s = RPanic
+    end.
+  Proof.
+    cbv zeta. unfold generate_receive.
+    destruct (lookup s) as [m| |].
+    - intros Hn.
+      destruct (m (add_balance cstate (pop_front cstate a) (s_zts s) (s_amount s)) s) as [a2 ds|c|].
+      + pose proof (loop_is_source gm rb1 rb2 (s_amount s) (map (enc_d num) ds) rb1 rb2 f1 f2 Hn ds a2) as HL.
+        destruct (apply_all cstate dest_check a2 ds) as [a3|c|].
+        * split; [reflexivity|exact HL].
+        * split; [reflexivity|exact HL].
+        * reflexivity.
+      + split; [reflexivity|]. intros Hc dsx items.
+        unfold generateEmbeddedReceive. cbv zeta.
+        destruct (Z.eqb_spec gm Err_constants_ErrContractMethodNotFound); [contradiction|].
+        change (0 =? 0) with true. cbn [negb].
+        destruct (Z.eqb_spec c 0); [contradiction|]. reflexivity.
+      + reflexivity.
+    - split; [reflexivity|]. intros dsx me items.
+      unfold generateEmbeddedReceive. cbv zeta. rewrite Z.eqb_refl. reflexivity.
+    - reflexivity.
+  Qed.
+End ReceiveIsSource.
